@@ -409,7 +409,7 @@ pub fn rows() -> Vec<TypeRow> {
                 for p in TOKENS.iter().chain(["/usr/share/keyrings/x.gpg", "/etc/apt/trusted.gpg.d/é.asc"].iter()) {
                     out.push(Signature::KeyPath(std::path::PathBuf::from(p)));
                 }
-                for b in ["-----BEGIN PGP PUBLIC KEY BLOCK-----\n.\nmQINBF\n=abcd\n-----END PGP PUBLIC KEY BLOCK-----", "a\nb"] {
+                for b in ["-----BEGIN PGP PUBLIC KEY BLOCK-----\n.\nmQINBF\n=abcd\n-----END PGP PUBLIC KEY BLOCK-----", "a\nb", "mDMEY865", "a b", ""] {
                     out.push(Signature::KeyBlock(b.to_string()));
                 }
                 out
